@@ -41,6 +41,9 @@ package client
 //@   atomic [released-at-most-once] (old(m.private.msg) != nil ==> callCount(ReleaseMessage) == 1 && callArg(ReleaseMessage, 0, 1) == old(m.private.msg)) && (old(m.private.msg) == nil ==> notCalled(ReleaseMessage))
 //@   atomic [forgotten] m.private.msg == nil
 //
+// GetMessage hands out a COPY of the pending message, made while the element's mutex is held: the incoming
+// acknowledgement releases the pending message under the same mutex (ReleaseMessage above), so a copy made
+// outside the critical section could read a message that is already back in the pool (seed C12c-2).
 //@ func (*midElement) GetMessage(cc *Conn) (msg *pool.Message, ok bool, err error)
 //@   requires m != nil
 //@   atomic [stored-stays] m.private.msg == old(m.private.msg)
